@@ -101,24 +101,25 @@ spec {
         r is Err ==> r->Err_0.kind == PacketUnderflow,
 }
 body_start {
-    broadcast use group_text;
+    broadcast use group_cstr;
+    proof { reveal(head_of); reveal(tail_of); }
 }
 @*/
 }
 
 
 // ---------------- split packets (Valve wiki "Multi-packet Response Format") ----------------
-pub open spec fn opt_u16(le: bool, o: Option<u16>) -> Seq<u8> { if o is Some { enc_u16(le, o->Some_0) } else { Seq::empty() } }
-pub open spec fn opt_comp(o: Option<(u32, u32)>) -> Seq<u8> {
-    if o is Some { enc_u32(true, o->Some_0.0) + enc_u32(true, o->Some_0.1) } else { Seq::empty() }
+pub open spec fn opt_u16(le: bool, o: Option<u16>, tail: Seq<u8>) -> Seq<u8> { if o is Some { cat(enc_u16(le, o->Some_0), tail) } else { tail } }
+pub open spec fn opt_comp(o: Option<(u32, u32)>, tail: Seq<u8>) -> Seq<u8> {
+    if o is Some { rn!(enc_u32(true, o->Some_0.0); enc_u32(true, o->Some_0.1); tail) } else { tail }
 }
 /// Source layout: header, id, total, number, [size unless protocol 7 + app 240], [decompressed size, crc32 if id bit 31], payload
 pub open spec fn enc_split_source(header: u32, id: u32, total: u8, number: u8, size: Option<u16>, comp: Option<(u32, u32)>, payload: Seq<u8>) -> Seq<u8> {
-    enc_u32(true, header) + (enc_u32(true, id) + (seq![total] + (seq![number] + (opt_u16(true, size) + (opt_comp(comp) + payload)))))
+    rn!(enc_u32(true, header); enc_u32(true, id); seq![total]; seq![number]; opt_u16(true, size, opt_comp(comp, payload)))
 }
 /// GoldSrc layout: header, id, one byte (upper nibble = number, lower nibble = total), payload
 pub open spec fn enc_split_goldsrc(header: u32, id: u32, total: u8, number: u8, payload: Seq<u8>) -> Seq<u8> {
-    enc_u32(true, header) + (enc_u32(true, id) + (seq![(number * 16 + total) as u8] + payload))
+    rn!(enc_u32(true, header); enc_u32(true, id); seq![(number * 16 + total) as u8]; payload)
 }
 pub open spec fn no_size_field(engine: Engine, protocol: u8) -> bool { protocol == 7 && engine == Engine::Source(Some((240u32, None::<u32>))) }
 
@@ -145,7 +146,7 @@ spec {
                 && r->Ok_0.decompressed is None && r->Ok_0.payload@ == payload,
 }
 body_start {
-    broadcast use group_text, group_wire;
+    broadcast use group_cstr, group_wire;
 }
 @*/
 
@@ -172,6 +173,7 @@ attrs {
 }
 @*/
 /// A2S request payloads (Valve wiki): A2S_INFO carries "Source Engine Query\0", the others a -1 challenge
+#[verifier::opaque]
 pub open spec fn default_payload(k: Request) -> Seq<u8> {
     match k {
         Request::Info => seq![0x53u8, 0x6F, 0x75, 0x72, 0x63, 0x65, 0x20, 0x45, 0x6E, 0x67, 0x69, 0x6E, 0x65, 0x20, 0x51, 0x75, 0x65, 0x72, 0x79, 0x00],
@@ -192,6 +194,7 @@ pub proof fn lemma_be_ffffffff()
     ensures enc_u32(false, 0xFFFF_FFFFu32) == seq![0xFFu8, 0xFFu8, 0xFFu8, 0xFFu8]
 {
     assert(0xFFFF_FFFFu32 & 0xff == 0xff && (0xFFFF_FFFFu32 >> 8) & 0xff == 0xff && (0xFFFF_FFFFu32 >> 16) & 0xff == 0xff && (0xFFFF_FFFFu32 >> 24) & 0xff == 0xff) by (bit_vector);
+    reveal(enc_u32);
     assert(enc_u32(false, 0xFFFF_FFFFu32) =~= seq![0xFFu8, 0xFFu8, 0xFFu8, 0xFFu8]);
 }
 
@@ -332,21 +335,130 @@ spec {
                 && (s.is_mod != 1 ==> r->Ok_0.mod_data is None),
 }
 body_start {
-    broadcast use lemma_cstr_wire, group_wire;
+    broadcast use group_cstr, group_wire;
 }
 @*/
 }
 
+/// outcome of one (retried) request/response exchange: the reply payload after the kind byte, or the error kind.
+/// Uninterpreted: it stands for whatever the network does; the parsers are specified relative to it.
+pub uninterp spec fn a2s_exchange(p: ValveProtocol, engine: Engine, protocol: u8, kind: u8, payload: Seq<u8>) -> Result<Seq<u8>, GDErrorKind>;
+pub open spec fn req_code(k: Request) -> u8 { match k { Request::Info => 0x54u8, Request::Players => 0x55u8, Request::Rules => 0x56u8 } }
+pub open spec fn a2s_reply(p: ValveProtocol, engine: Engine, protocol: u8, k: Request) -> Result<Seq<u8>, GDErrorKind> {
+    a2s_exchange(p, engine, protocol, req_code(k), default_payload(k))
+}
+// enum-to-integer cast of a `Request` value (Verus has no exec enum casts); spec checked by Kani (valve_request_codes)
+#[verifier::external_body]
+pub fn idiom_request_as_u8(kind: Request) -> (r: u8)
+    ensures r == req_code(kind)
+{ kind as u8 }
 impl ValveProtocol {
 /*@ fn file=crates/lib/src/protocols/valve/protocol.rs impl="impl ValveProtocol" name=get_request_data props=C10,C01 assume=kani:retry_wiring_valve
 spec {
-    ensures final(self).retry_count == old(self).retry_count,
+    ensures
+        final(self).retry_count == old(self).retry_count,
+        r is Ok <==> a2s_exchange(*old(self), *engine, protocol, kind, payload@) is Ok,
+        r is Ok ==> r->Ok_0@ == a2s_exchange(*old(self), *engine, protocol, kind, payload@)->Ok_0,
+        r is Err ==> r->Err_0.kind == a2s_exchange(*old(self), *engine, protocol, kind, payload@)->Err_0,
 }
 @*/
 /*@ fn file=crates/lib/src/protocols/valve/protocol.rs impl="impl ValveProtocol" name=get_kind_request_data props=C09,C01
-use R18
+subst "kind as u8" {
+    idiom_request_as_u8(kind)
+}
 spec {
-    ensures final(self).retry_count == old(self).retry_count,
+    ensures
+        final(self).retry_count == old(self).retry_count,
+        r is Ok <==> a2s_reply(*old(self), *engine, protocol, kind) is Ok,
+        r is Ok ==> r->Ok_0@ == a2s_reply(*old(self), *engine, protocol, kind)->Ok_0,
+        r is Err ==> r->Err_0.kind == a2s_reply(*old(self), *engine, protocol, kind)->Err_0,
+}
+@*/
+}
+
+// ---------------- A2S_INFO, Source layout (Valve wiki "A2S_INFO / Response Format") ----------------
+// payload after the 'I' kind byte: Protocol; Name, Map, Folder, Game strings; ID short; Players, Max, Bots; Server type;
+// Environment; Visibility; VAC; [The Ship: Mode, Witnesses, Duration]; Version string; [EDF byte; 0x80 Port short;
+// 0x10 SteamID u64; 0x40 SourceTV port short + name string; 0x20 Keywords string; 0x01 GameID u64]
+pub struct SrcInfo {
+    pub protocol: u8, pub name: Seq<char>, pub map: Seq<char>, pub folder: Seq<char>, pub game: Seq<char>, pub id: u16,
+    pub players: u8, pub max_players: u8, pub bots: u8, pub server_type: u8, pub environment: u8, pub visibility: u8, pub vac: u8,
+    pub ship_mode: u8, pub ship_witnesses: u8, pub ship_duration: u8,
+    pub version: Seq<char>,
+    pub has_edf: bool, pub edf: u8, pub port: u16, pub steam_id: u64, pub tv_port: u16, pub tv_name: Seq<char>, pub keywords: Seq<char>, pub game_id: u64,
+}
+pub open spec fn is_ship(engine: Engine) -> bool { engine == Engine::Source(Some((2400u32, None::<u32>))) }
+pub open spec fn enc_edf_01(s: SrcInfo, tail: Seq<u8>) -> Seq<u8> { if s.edf & 0x01 > 0 { cat(enc_u64(true, s.game_id), tail) } else { tail } }
+pub open spec fn enc_edf_20(s: SrcInfo, tail: Seq<u8>) -> Seq<u8> { if s.edf & 0x20 > 0 { cat(cstr(s.keywords), enc_edf_01(s, tail)) } else { enc_edf_01(s, tail) } }
+pub open spec fn enc_edf_40(s: SrcInfo, tail: Seq<u8>) -> Seq<u8> { if s.edf & 0x40 > 0 { rn!(enc_u16(true, s.tv_port); cstr(s.tv_name); enc_edf_20(s, tail)) } else { enc_edf_20(s, tail) } }
+pub open spec fn enc_edf_10(s: SrcInfo, tail: Seq<u8>) -> Seq<u8> { if s.edf & 0x10 > 0 { cat(enc_u64(true, s.steam_id), enc_edf_40(s, tail)) } else { enc_edf_40(s, tail) } }
+pub open spec fn enc_edf_80(s: SrcInfo, tail: Seq<u8>) -> Seq<u8> { if s.edf & 0x80 > 0 { cat(enc_u16(true, s.port), enc_edf_10(s, tail)) } else { enc_edf_10(s, tail) } }
+pub open spec fn enc_edf(s: SrcInfo) -> Seq<u8> { if s.has_edf { cat(seq![s.edf], enc_edf_80(s, Seq::empty())) } else { Seq::empty() } }
+pub open spec fn enc_ship(s: SrcInfo, engine: Engine, tail: Seq<u8>) -> Seq<u8> {
+    if is_ship(engine) { rn!(seq![s.ship_mode]; seq![s.ship_witnesses]; seq![s.ship_duration]; tail) } else { tail }
+}
+pub open spec fn enc_src_info(s: SrcInfo, engine: Engine) -> Seq<u8> {
+    rn!(seq![s.protocol]; cstr(s.name); cstr(s.map); cstr(s.folder); cstr(s.game); enc_u16(true, s.id); seq![s.players]; seq![s.max_players]; seq![s.bots];
+        seq![s.server_type]; seq![s.environment]; seq![s.visibility]; seq![s.vac];
+        enc_ship(s, engine, cat(cstr(s.version), enc_edf(s))))
+}
+pub open spec fn lower(b: u8) -> u8 { if 65 <= b <= 90 { (b + 32) as u8 } else { b } }
+pub open spec fn src_valid(s: SrcInfo) -> bool {
+    no_nul(s.name) && no_nul(s.map) && no_nul(s.folder) && no_nul(s.game) && no_nul(s.version) && no_nul(s.tv_name) && no_nul(s.keywords)
+    && (lower(s.server_type) == 100 || lower(s.server_type) == 108 || lower(s.server_type) == 112)
+    && (lower(s.environment) == 108 || lower(s.environment) == 119 || lower(s.environment) == 109 || lower(s.environment) == 111)
+}
+pub open spec fn src_server(b: u8) -> Server { if lower(b) == 100 { Server::Dedicated } else if lower(b) == 108 { Server::NonDedicated } else { Server::TV } }
+pub open spec fn src_env(b: u8) -> Environment { if lower(b) == 108 { Environment::Linux } else if lower(b) == 119 { Environment::Windows } else { Environment::Mac } }
+/// the expected extra-data section for a state
+pub open spec fn edf_matches(e: ExtraData, s: SrcInfo) -> bool {
+    (e.port == if s.edf & 0x80 > 0 { Some(s.port) } else { None::<u16> })
+    && (e.steam_id == if s.edf & 0x10 > 0 { Some(s.steam_id) } else { None::<u64> })
+    && (e.tv_port == if s.edf & 0x40 > 0 { Some(s.tv_port) } else { None::<u16> })
+    && (if s.edf & 0x40 > 0 { e.tv_name is Some && e.tv_name->Some_0@ == s.tv_name } else { e.tv_name is None })
+    && (if s.edf & 0x20 > 0 { e.keywords is Some && e.keywords->Some_0@ == s.keywords } else { e.keywords is None })
+    && (e.game_id == if s.edf & 0x01 > 0 { Some(s.game_id) } else { None::<u64> })
+}
+
+impl ValveProtocol {
+/*@ fn file=crates/lib/src/protocols/valve/protocol.rs impl="impl ValveProtocol" name=get_server_info props=C02,C01
+use R18
+fn_attrs {
+#[verifier::rlimit(60)]
+}
+spec {
+    ensures
+        final(self).retry_count == old(self).retry_count,
+        a2s_reply(*old(self), *engine, 0, Request::Info) is Err ==> r is Err && r->Err_0.kind == a2s_reply(*old(self), *engine, 0, Request::Info)->Err_0,
+        // Source layout (also used for GoldSrc(false)): left inverse of the documented encoding
+        forall|s: SrcInfo| !(*engine == Engine::GoldSrc(true)) && src_valid(s)
+            && a2s_reply(*old(self), *engine, 0, Request::Info) == Ok::<Seq<u8>, GDErrorKind>(#[trigger] enc_src_info(s, *engine))
+            ==> r is Ok
+                && r->Ok_0.protocol_version == s.protocol && r->Ok_0.name@ == s.name && r->Ok_0.map@ == s.map && r->Ok_0.folder@ == s.folder
+                && r->Ok_0.game_mode@ == s.game && r->Ok_0.players_online == s.players && r->Ok_0.players_maximum == s.max_players
+                && r->Ok_0.players_bots == s.bots && r->Ok_0.server_type == src_server(s.server_type) && r->Ok_0.environment_type == src_env(s.environment)
+                && r->Ok_0.has_password == (s.visibility == 1) && r->Ok_0.vac_secured == (s.vac == 1)
+                && (is_ship(*engine) ==> r->Ok_0.the_ship == Some(TheShip { mode: s.ship_mode, witnesses: s.ship_witnesses, duration: s.ship_duration }))
+                && (!is_ship(*engine) ==> r->Ok_0.the_ship is None)
+                && r->Ok_0.game_version@ == s.version
+                && (s.has_edf ==> r->Ok_0.extra_data is Some && edf_matches(r->Ok_0.extra_data->Some_0, s))
+                && (!s.has_edf ==> r->Ok_0.extra_data is None)
+                // app id: the 16-bit ID, superseded by the low 24 bits of the 64-bit GameID when present
+                && r->Ok_0.appid == (if s.has_edf && s.edf & 0x01 > 0 { (s.game_id & 0xFF_FFFF) as u32 } else { s.id as u32 })
+                && !r->Ok_0.is_mod && r->Ok_0.mod_data is None,
+        // obsolete GoldSrc layout when enforced
+        forall|s: GoldInfo| *engine == Engine::GoldSrc(true) && gold_valid(s) && s.addr_first != 0
+            && a2s_reply(*old(self), *engine, 0, Request::Info) == Ok::<Seq<u8>, GDErrorKind>(#[trigger] enc_gold_info(s))
+            ==> r is Ok && r->Ok_0.name@ == s.name && r->Ok_0.map@ == s.map && r->Ok_0.players_online == s.players
+                && r->Ok_0.players_maximum == s.max_players && r->Ok_0.players_bots == s.bots,
+}
+body_start {
+    broadcast use group_cstr, group_wire;
+}
+after "let gid" {
+    proof {
+        assert((1u64 << 24) == 0x100_0000u64) by (bit_vector);
+    }
 }
 @*/
 }
